@@ -96,4 +96,7 @@ static Elem *mk_pos (struct svb *s)
   return DATA (s) + k;
 }
 
+/* the caller's forward iterator at a position */
+static struct FwdIt mk_fwd (const Elem *p) { struct FwdIt i; i.cur = p; return i; }
+
 #endif
